@@ -16,6 +16,7 @@ func main() {
 	dump := flag.String("dump", "", "debug: dump effects and facts reachable from the entry function id")
 	dumpFilter := flag.String("filter", "", "debug: only effects whose name contains this")
 	listFuncs := flag.Bool("funcs", false, "debug: list library functions")
+	sumOf := flag.String("summary", "", "debug: print the summary of a function id")
 	explain := flag.String("explain", "", "re-evaluate the obligation recorded in a violation report")
 	outDir := flag.String("out", envOr("LH_OUT", "/verif/evidence"), "evidence directory")
 	known := flag.String("known", envOr("LH_KNOWN", "/verif/known_findings.json"), "known findings file")
@@ -41,6 +42,21 @@ func main() {
 			p := Load(*repo, *goarch, nil)
 			for _, f := range p.Funcs {
 				fmt.Println(funcID(f), "|", shortName(f))
+			}
+		case *sumOf != "":
+			p := Load(*repo, *goarch, nil)
+			a := NewAnalyzer(p)
+			sm := a.Summary(a.P.Func(*sumOf))
+			fmt.Println("value summary:", a.valueSummary(a.P.Func(*sumOf)))
+			fmt.Println("resKind", sm.resKind, "resIdx", sm.resIdx)
+			for _, k := range sm.succ.SortedKeys() {
+				fmt.Println("  succ:", k)
+			}
+			for _, k := range sm.fail.SortedKeys() {
+				fmt.Println("  fail:", k)
+			}
+			for _, k := range sm.post.SortedKeys() {
+				fmt.Println("  post:", k)
 			}
 		case *dump != "":
 			p := Load(*repo, *goarch, nil)
